@@ -1,11 +1,12 @@
 #!/bin/bash
-# usage: detect_mut.sh <worktree> <seeded-id> <property> [tier]
-# Runs the property's check against the changed worktree for batch seeds 1..3 and records the outcome in meta.json.
-WT=$1; ID=$2; PROP=$3; TIER=${4:-quick}
+# usage: detect_mut.sh <seeded-id> <property> [tier]
+# Applies /verif/seeded/<id>/patch.diff to a fresh scratch worktree of /repo HEAD, runs the property's check for
+# batch seeds 1..3 and records the outcome in meta.json.
+ID=$1; PROP=$2; TIER=${3:-quick}
 RES=""
 for s in 1 2 3; do
-  out=$(VERIF_SEED=$s /verif/tools/try_mut.sh "$WT" "$PROP" "$TIER" 2>&1)
-  sig=$(echo "$out" | grep -E "^violation" | head -1 | sed -E 's/^violation: ([^ ]+) \[([^]]+)\].*/\1 [\2]/' | sed -E "s#/tmp/mut/[A-Za-z0-9]+/##g")
+  out=$(VERIF_SEED=$s /verif/tools/try_patch.sh "/verif/seeded/$ID/patch.diff" "$PROP" "$TIER" 2>&1)
+  sig=$(echo "$out" | grep -E "^violation" | head -1 | sed -E 's/^violation: ([^ ]+) \[([^]]+)\].*/\1 [\2]/' | sed -E "s#/tmp/mut/[A-Za-z0-9-]+/##g")
   if echo "$out" | grep -q "^VIOLATION"; then r="seed $s: caught ($sig)"; else r="seed $s: MISSED"; fi
   echo "$ID $PROP $TIER $r"
   RES="$RES|$r"
@@ -17,6 +18,6 @@ m=json.load(open(p))
 m.setdefault("detected_by",[])
 m["detected_by"]=[d for d in m["detected_by"] if not (d.get("check")==prop and d.get("tier")==tier)]
 m["detected_by"].append({"check":prop,"tier":tier,"runs":[r for r in res.split("|") if r]})
-m["ran"]="tools/try_mut.sh <worktree with patch applied> %s %s with VERIF_SEED=1,2,3"%(prop,tier)
+m["ran"]="tools/try_patch.sh seeded/<id>/patch.diff %s %s with VERIF_SEED=1,2,3 (patch applied to a scratch worktree of /repo HEAD)"%(prop,tier)
 json.dump(m,open(p,"w"),indent=1)
 PY
